@@ -206,20 +206,7 @@ def r07_3(ctx, fns, txn_pub):
             ok = bool(clear_pubs) and b.post_dominated_by(blk, clear_pubs) and bool(vclears) and (b.post_dominated_by(blk, vclears) or all(b.must_pass(0, blk, [v]) for v in vclears))
             ctx.verdict(ok, "R07.3", f, "discarded-diffs-replaced-by-Clear", where, "after batch.%s() every path records a Clear and the working copy is cleared" % t["callee"].split("::")[-1],
                         "`%s` discards the recorded diffs (batch.%s) but a following path does not record a `Clear` (with the working copy emptied): the committed batch no longer takes the pre-transaction state to the post-transaction state" % (f.path, t["callee"].split("::")[-1]))
-    # guard of the transaction's clear must look at its own working copy
-    for f in fns:
-        if f.name != "clear" or not f.built:
-            continue
-        b = f.built
-        muts = [mb for mb, mt, m in c05.values_mutations(b) if m == "clear"]
-        for mb in muts:
-            facts = conds.bare(conds.dominating_facts(b, mb))
-            for x in facts:
-                if x[0] == "truth" and x[1][0] == "call" and ecall_matches(x[1], r"::is_empty$"):
-                    ch = place_chain(strip(x[1][3][0]))
-                    own = ch[-1:] == ["values"] and "inner" not in ch
-                    ctx.verdict(own and x[2] is False, "R07.3", f, "clear-guard", b.line_at((mb, 10 ** 6)), "clear is guarded by !self.values.is_empty() (own working copy)",
-                                "the transaction's clear is guarded by emptiness of `%s`, not of its own working copy: pending items survive clear()" % (".".join(ch) or fmt(x[1][3][0], 4)))
+    clear_guard(ctx, fns)
     # Drop writes nothing
     for f in fns:
         if f.raw.get("impl_trait") == "std::ops::Drop" and (f.raw.get("self_ty") or "").startswith(TXN):
@@ -231,6 +218,25 @@ def r07_3(ctx, fns, txn_pub):
             calls = [t for blk, t in b.calls() if F.local_callee(f, t) is not None and F.local_callee(f, t).name in ("commit", "rollback")]
             ctx.verdict(not bad and not calls, "R07.3", f, "drop-is-rollback", f.loc(), "Drop writes no field and commits nothing",
                         "the transaction's Drop writes state / commits: abandoning a transaction is no longer a no-op for the vector")
+
+
+def clear_guard(ctx, fns, rule="R07.3"):
+    """a guard of the transaction's clear must look at its own working copy"""
+    F = ctx.facts
+    for f in fns:
+        if f.name != "clear" or not f.built:
+            continue
+        b = f.built
+        muts = [mb for mb, mt, m in c05.values_mutations(b) if m == "clear"]
+        for mb in muts:
+            facts = conds.bare(conds.dominating_facts(b, mb))
+            for x in facts:
+                if x[0] == "truth" and x[1][0] == "call" and ecall_matches(x[1], r"::is_empty$"):
+                    ch = place_chain(strip(x[1][3][0]))
+                    own = ch[-1:] == ["values"] and "inner" not in ch
+                    ctx.verdict(own and x[2] is False, rule, f, "clear-guard", b.line_at((mb, 10 ** 6)), "clear is guarded by !self.values.is_empty() (own working copy)",
+                                "the transaction's clear is guarded by emptiness of `%s`, not of its own working copy: pending items survive clear()" % (".".join(ch) or fmt(x[1][3][0], 4)))
+
 
 
 def r07_4(ctx, fns):
